@@ -9,14 +9,14 @@ git -C /repo worktree remove --force "$WT" >/dev/null 2>&1; rm -rf "$WT"
 git -C /repo worktree add --detach "$WT" HEAD >/dev/null 2>&1 || { echo "{\"dir\":\"$D\",\"error\":\"worktree\"}"; exit 1; }
 cd "$WT" || exit 1
 export CARGO_TARGET_DIR="$WT/target"
-DEMO_CMD=$(python3 -c "import json;print(json.load(open('$D/meta.json'))['demo_cmd'])")
+DEMO_CMD=$(python3 -c "import json;m=json.load(open('$D/meta.json'));print(m.get('demo_cmd') or m.get('demonstration'))")
 git apply "$D/demo.diff" || { echo "{\"dir\":\"$D\",\"error\":\"demo.diff does not apply\"}"; }
 ( eval "$DEMO_CMD" ) > "$WT/demo_without.log" 2>&1; W=$?
 git apply "$D/patch.diff" || { echo "{\"dir\":\"$D\",\"error\":\"patch.diff does not apply\"}"; }
 ( eval "$DEMO_CMD" ) > "$WT/demo_with.log" 2>&1; X=$?
 # existing tests with the change (demo file removed again so that it does not count)
 git apply -R "$D/demo.diff"
-cargo test --workspace --no-fail-fast --offline > "$WT/suite.log" 2>&1
+cargo test --workspace --no-fail-fast --offline -j 6 > "$WT/suite.log" 2>&1
 NEWFAIL=$(python3 - "$WT/suite.log" <<'PY'
 import re,json,sys
 log=open(sys.argv[1]).read()
